@@ -193,12 +193,23 @@ def shard(sh: Shard, seed, wseed, regime, nhist, nev):
 
             async def main():
                 if not await rig.connect():
-                    # the handshake itself went through the queue: judge what was seen
+                    # the handshake itself went through the queue: judge what was seen, and probe
+                    # the addressing clause on the half-open connection (its consumers are running)
                     before = len(sh.violations)
                     if rig.protocol is not None:
                         judge_queue(sh, rig, "B", 0, "handshake", final=False)
+                        from vlib.rig import CLIENT_ID, SPA_ID
+
+                        for variant, s_id, d_id in (("src-id", b"SPAaa:bb:cc:dd:ee:ff", CLIENT_ID), ("dst-id", SPA_ID, b"IOS99999999-0000-0000-0000-000000000000")):
+                            ev0 = len(rig.events)
+                            w.net.inject(frame(s_id, d_id, b"RFERR"), rig.sim.addr, rig.transport)
+                            await asyncio.sleep(0.6)
+                            evs = [e[0].name for e in rig.events[ev0:] if e[0].name == "ERROR_RF_ERROR"]
+                            sh.evaluations += 1
+                            if evs:
+                                sh.violation(f"C07:misaddressed-effect:{variant}", f"a packet with wrong {variant} raised {evs} (probed on a connection whose handshake failed on a fault-free network)", {"variant": variant})
                     if len(sh.violations) == before:
-                        sh.inconc("rig could not connect and the queue monitor saw nothing wrong")
+                        sh.inconc("rig could not connect and the monitors saw nothing wrong")
                     return
                 judge_queue(sh, rig, "B", 0, "handshake", final=False)
                 await rig.quiesce()
